@@ -93,63 +93,53 @@ end Scalibr.Relax
 namespace Scalibr.Override
 open Scalibr.Upgrade
 
-theorem versionsGreater_ge (rank : Nat → Nat) (vs : List Nat) (vk : Nat) (hs : Sorted rank vs) :
-    ∀ r ∈ versionsGreater rank vs vk, rank vk ≤ rank r := by
-  induction vs with
-  | nil => intro r hr; simp [versionsGreater] at hr
+theorem dropWhile_eq_gt (rank : Nat → Nat) (vk : Nat) (l : List Nat) (hs : Sorted rank l) (hge : ∀ y ∈ l, rank vk ≤ rank y) :
+    ∀ r ∈ l.dropWhile (fun x => rank x = rank vk), rank vk < rank r := by
+  induction l with
+  | nil => intro r hr; simp at hr
   | cons x xs ih =>
     unfold Sorted at hs
     rw [List.pairwise_cons] at hs
     intro r hr
-    unfold versionsGreater at hr
-    by_cases hx : rank x < rank vk
-    · have htw : (x :: xs).takeWhile (fun y => rank y < rank vk) = x :: xs.takeWhile (fun y => rank y < rank vk) := by
-        simp [List.takeWhile, hx]
-      simp only [htw, List.length_cons, List.getElem?_cons_succ, List.drop_succ_cons] at hr
-      exact ih hs.2 r hr
-    · have htw : (x :: xs).takeWhile (fun y => rank y < rank vk) = [] := by simp [List.takeWhile, hx]
-      simp only [htw, List.length_nil, List.getElem?_cons_zero, Nat.zero_add] at hr
-      split at hr
-      · simp only [List.drop_succ_cons, List.drop_zero] at hr
-        have := hs.1 r hr; omega
-      · simp only [List.drop_zero, List.mem_cons] at hr
-        rcases hr with rfl | hr
-        · omega
-        · have := hs.1 r hr; omega
+    by_cases hx : rank x = rank vk
+    · simp only [List.dropWhile, hx, decide_true] at hr
+      exact ih hs.2 (fun y hy => hge y (by simp [hy])) r hr
+    · simp only [List.dropWhile, hx, decide_false] at hr
+      have hxge := hge x (by simp)
+      simp only [List.mem_cons] at hr
+      rcases hr with rfl | hr
+      · omega
+      · have := hs.1 r hr; omega
 
-theorem versionsGreater_gt (rank : Nat → Nat) (vs : List Nat) (vk : Nat) (hs : StrictSorted rank vs) :
+theorem versionsGreater_gt (rank : Nat → Nat) (vs : List Nat) (vk : Nat) (hs : Sorted rank vs) :
     ∀ r ∈ versionsGreater rank vs vk, rank vk < rank r := by
   induction vs with
   | nil => intro r hr; simp [versionsGreater] at hr
   | cons x xs ih =>
-    unfold StrictSorted at hs
-    rw [List.pairwise_cons] at hs
+    have hs' := hs
+    unfold Sorted at hs'
+    rw [List.pairwise_cons] at hs'
     intro r hr
     unfold versionsGreater at hr
     by_cases hx : rank x < rank vk
     · have htw : (x :: xs).takeWhile (fun y => rank y < rank vk) = x :: xs.takeWhile (fun y => rank y < rank vk) := by
         simp [List.takeWhile, hx]
-      simp only [htw, List.length_cons, List.getElem?_cons_succ, List.drop_succ_cons] at hr
-      exact ih hs.2 r hr
+      simp only [htw, List.length_cons, List.drop_succ_cons] at hr
+      exact ih hs'.2 r hr
     · have htw : (x :: xs).takeWhile (fun y => rank y < rank vk) = [] := by simp [List.takeWhile, hx]
-      simp only [htw, List.length_nil, List.getElem?_cons_zero, Nat.zero_add] at hr
-      split at hr
-      · rename_i hxe
-        simp only [List.drop_succ_cons, List.drop_zero] at hr
-        have := hs.1 r hr; omega
-      · rename_i hxe
-        simp only [List.drop_zero, List.mem_cons] at hr
-        rcases hr with rfl | hr
-        · omega
-        · have := hs.1 r hr; omega
+      simp only [htw, List.length_nil, List.drop_zero] at hr
+      apply dropWhile_eq_gt rank vk (x :: xs) hs _ r hr
+      intro y hy
+      simp only [List.mem_cons] at hy
+      rcases hy with rfl | hy
+      · omega
+      · have := hs'.1 y hy; omega
 
 theorem versionsGreater_sub (rank : Nat → Nat) (vs : List Nat) (vk : Nat) : ∀ r ∈ versionsGreater rank vs vk, r ∈ vs := by
   intro r hr
   unfold versionsGreater at hr
   simp only at hr
-  split at hr
-  · split at hr <;> exact List.mem_of_mem_drop hr
-  · exact List.mem_of_mem_drop hr
+  exact List.mem_of_mem_drop ((List.dropWhile_sublist _).subset hr)
 
 /-- what the scan hands back: the incoming best, or a candidate that was reached through allowed
 differences only and lowered the count -/
@@ -287,7 +277,7 @@ theorem round_getD (u : MU) (res : Res) (pins : Pins) (p : Nat) (hp : p < u.np) 
 /-- one package's slack never grows in a round and shrinks when the package is patched -/
 theorem slack_step (u : MU) (res : Res) (pins : Pins) (p : Nat)
     (hpin : ∀ b, pins.getD p none = some b → res.getD p none = some b ∨ res.getD p none = none)
-    (hs : StrictSorted (u.rank p) (u.vs p)) :
+    (hs : Sorted (u.rank p) (u.vs p)) :
     slack u p (stepP u res pins p) ≤ slack u p (pins.getD p none) ∧
     (patchedP u res p = true → slack u p (stepP u res pins p) < slack u p (pins.getD p none)) := by
   unfold stepP patchedP
@@ -314,7 +304,7 @@ theorem slack_step (u : MU) (res : Res) (pins : Pins) (p : Nat)
 
 theorem round_measure_lt (u : MU) (res : Res) (pins : Pins)
     (hpin : ∀ p b, pins.getD p none = some b → res.getD p none = some b ∨ res.getD p none = none)
-    (hs : ∀ p, StrictSorted (u.rank p) (u.vs p)) (hd : didPatch u res = true) :
+    (hs : ∀ p, Sorted (u.rank p) (u.vs p)) (hd : didPatch u res = true) :
     measure u (round u res pins) < measure u pins := by
   unfold didPatch at hd
   rw [List.any_eq_true] at hd
@@ -331,7 +321,7 @@ theorem round_measure_lt (u : MU) (res : Res) (pins : Pins)
   exact (slack_step u res pins q (hpin q) (hs q)).2 hpq
 
 theorem loop_done (u : MU) (resolve : Pins → Res) (hh : HonoursPinsM resolve)
-    (hs : ∀ p, StrictSorted (u.rank p) (u.vs p)) (fuel : Nat) (pins : Pins) (k : Nat) (hf : measure u pins < fuel) :
+    (hs : ∀ p, Sorted (u.rank p) (u.vs p)) (fuel : Nat) (pins : Pins) (k : Nat) (hf : measure u pins < fuel) :
     (loop u resolve fuel pins k).done = true := by
   induction fuel generalizing pins k with
   | zero => omega
@@ -386,8 +376,8 @@ theorem within_round (u : MU) (res : Res) (pins0 pins : Pins)
         · rw [hr] at h; cases h
       subst hrb
       obtain ⟨_, hvg, hal', _⟩ := pickP_spec u p r b' hpk
-      have hge := versionsGreater_ge _ _ _ (hs p) b' hvg
-      exact ⟨b', rfl, Nat.le_trans hle hge, allows_trans (u.diff p) (L p) (u.level p) a r b' hal hal'⟩
+      have hge := versionsGreater_gt _ _ _ (hs p) b' hvg
+      exact ⟨b', rfl, Nat.le_trans hle (Nat.le_of_lt hge), allows_trans (u.diff p) (L p) (u.level p) a r b' hal hal'⟩
 
 theorem within_loop (u : MU) (resolve : Pins → Res) (hh : HonoursPinsM resolve)
     (L : ∀ p, DiffClassLaws (u.diff p)) (hs : ∀ p, Sorted (u.rank p) (u.vs p))
